@@ -241,3 +241,5 @@ fire("C08", "code_data/_constants.py", "        return frozenset(Counter(map(con
 fire("C11", C, "        if args:\n            raise AssertionError(\"if this isn't a function, it shouldn't have args\")", "        assert not args, \"if this isn't a function, it shouldn't have args\"", "the original defect: guard vanishes under -O (R11.A)")
 fire("C03", B, "            if self._hash_fn(self._i_to_arg[i]) != self._hash_fn(arg):\n                raise AssertionError(f\"Two different args at index {i}\")", "            assert self._hash_fn(self._i_to_arg[i]) == self._hash_fn(arg), f\"Two different args at index {i}\"", "the original defect: collision guard vanishes under -O (R03.G)")
 fire("C10", L, "            and item.line_offset is not None\n            and (item.line_offset > 0) == (prev_item.line_offset > 0)\n", "", "the original defect: opposite-sign entry merged as a continuation (R10.1)")
+M.append(dict(kind="fire", pid="C03", file=B, old="    # Now that we know the total number of cellvars, incremement all the freevar\n    # indices by the number of cellvars, for each arg\n    for block_index, block in enumerate(blocks):\n        for instruction_index, instruction in enumerate(block):\n            arg = instruction.arg\n            if isinstance(arg, Freevar):\n                args[block_index, instruction_index] += len(cellvars)\n\n    # Iterate through all blocks", new="    # Iterate through all blocks",
+              more=[("    # Finally go assemble the bytes and the line mapping\n", "    for block_index, block in enumerate(blocks):\n        for instruction_index, instruction in enumerate(block):\n            arg = instruction.arg\n            if isinstance(arg, Freevar):\n                args[block_index, instruction_index] += len(cellvars)\n\n    # Finally go assemble the bytes and the line mapping\n")], why="the original defect: an operand grows after the layout (R03.7)"))
